@@ -63,3 +63,64 @@ Example C15_example_fixed :
 Proof. vm_compute. reflexivity. Qed.
 Goal True. idtac "ASSUMPTIONS-OF C15_example_fixed". Abort.
 Print Assumptions C15_example_fixed.
+
+(* FREE FORM, CONTINUATION LINES.  The continuation regex  ^ *(!$) *&?  : a line that starts, after any
+   blanks, with the sentinel has exactly those two characters replaced by blanks; any other line is
+   left as it is. *)
+From FV Require Import ReaderJoin OmpCont.
+Theorem C15_free_continuation_sentinel_is_blanked :
+  forall b r, blanks b -> omp_free_cont (b ++ "!"%char :: "$"%char :: r) = b ++ " "%char :: " "%char :: r.
+Proof. exact omp_free_cont_sentinel. Qed.
+Goal True. idtac "ASSUMPTIONS-OF C15_free_continuation_sentinel_is_blanked". Abort.
+Print Assumptions C15_free_continuation_sentinel_is_blanked.
+
+Theorem C15_free_continuation_other_line_untouched :
+  forall b x y r, blanks b -> aeqb x " "%char = false -> aeqb x "!"%char && aeqb y "$"%char = false ->
+    omp_free_cont (b ++ x :: y :: r) = b ++ x :: y :: r.
+Proof. exact omp_free_cont_other. Qed.
+Goal True. idtac "ASSUMPTIONS-OF C15_free_continuation_other_line_untouched". Abort.
+Print Assumptions C15_free_continuation_other_line_untouched.
+
+(* The continuation loop behind a sentinel, handling ENABLED, is the plain loop on the source whose
+   lines have had their leading sentinel blanked (mapl applies omp_free_cont to every line not yet
+   read): same joined text, same last line number, and the rest of the source is the blanked rest.
+   For every reader state in free form, every amount of text already joined, every open-quote state,
+   every number of continuation, comment and blank lines.  `comm` (blanking commutes with the
+   right-strip applied to each physical line) excludes only lines that consist of the sentinel alone. *)
+Theorem C15_free_continuation_loop_equals_blanked_source :
+  forall fuel first acc q endl line s, ok s ->
+    let '(t, e, s2) := free_loop fuel true first acc q endl line s in
+    free_loop fuel false first acc q endl (omp_free_cont line) (mapl s) = (t, e, mapl s2).
+Proof. exact free_loop_behind_sentinel. Qed.
+Goal True. idtac "ASSUMPTIONS-OF C15_free_continuation_loop_equals_blanked_source". Abort.
+Print Assumptions C15_free_continuation_loop_equals_blanked_source.
+
+(* ... and the item: a statement whose first line carries the sentinel (any indentation), read with the
+   handling enabled, is the item read from the blanked source with the handling disabled -- label,
+   construct name, joined text, span, queued comments -- and the reader is left on the blanked rest. *)
+Theorem C15_free_statement_behind_sentinel_equals_blanked_source :
+  forall b rest lab l1 nm l2 src lc fifo ign er,
+    blanks b ->
+    rstrip (b ++ "!"%char :: "$"%char :: " "%char :: rest) = b ++ "!"%char :: "$"%char :: " "%char :: rest ->
+    rstrip (b ++ " "%char :: " "%char :: " "%char :: rest) = b ++ " "%char :: " "%char :: " "%char :: rest ->
+    starts_with ["#"%char] (lstrip (b ++ " "%char :: " "%char :: " "%char :: rest)) = false ->
+    extract_label (b ++ " "%char :: " "%char :: " "%char :: rest) = (lab, l1) ->
+    extract_construct_name l1 = (nm, l2) -> omp_free_cont l2 = l2 ->
+    Forall comm src ->
+    get_source_item (mkRst ((b ++ " "%char :: " "%char :: " "%char :: rest) :: map omp_free_cont src) [] lc fifo true false ign er)
+    = lift2 (get_source_item (mkRst ((b ++ "!"%char :: "$"%char :: " "%char :: rest) :: src) [] lc fifo true true ign er)).
+Proof. exact item_behind_sentinel. Qed.
+Goal True. idtac "ASSUMPTIONS-OF C15_free_statement_behind_sentinel_equals_blanked_source". Abort.
+Print Assumptions C15_free_statement_behind_sentinel_equals_blanked_source.
+
+(* the hypotheses are met by an indented, labelled statement continued over two indented sentinel lines *)
+Example C15_example_behind_sentinel :
+  let src := [s2t "   !$ & + 2 &"; s2t "     !$   & + 3"; s2t "z = 4"] in
+  Forall comm src /\
+  extract_label (s2t "      10 y = 1 &") = (Some 10%N, s2t "y = 1 &") /\
+  extract_construct_name (s2t "y = 1 &") = (None, s2t "y = 1 &") /\ omp_free_cont (s2t "y = 1 &") = s2t "y = 1 &" /\
+  fst (get_source_item (mkRst (s2t "  !$  10 y = 1 &" :: src) [] 0 [] true true true false))
+  = Some (RLine (s2t "y = 1  + 2  + 3") (Some 10%N) None 1 3).
+Proof. cbv zeta. repeat split; try (vm_compute; reflexivity). repeat constructor; vm_compute; reflexivity. Qed.
+Goal True. idtac "ASSUMPTIONS-OF C15_example_behind_sentinel". Abort.
+Print Assumptions C15_example_behind_sentinel.
